@@ -602,6 +602,24 @@ func (t *Terminal) handleKey(key rune) (line []string, ok bool) {
 			case c == '/' && cur+1 < len(t.line) && t.line[cur+1] == '*':
 				blockComment = true
 				cur++
+			case c == '/' && cur+1 < len(t.line) && t.line[cur+1] == '/':
+				// a remark up to the end of the line that is being entered
+				// (remarks of earlier lines are gone already). the entry
+				// keeps its line breaks as blanks, so the remark is taken
+				// out here: handed over with the rest of the statement
+				// behind it on one line, it would swallow that rest
+				end := cur
+				for end < len(t.line) && t.line[end] != '\n' {
+					end++
+				}
+				t.line = append(t.line[:cur], t.line[end:]...)
+				switch {
+				case t.pos >= end:
+					t.pos -= end - cur
+				case t.pos > cur:
+					t.pos = cur
+				}
+				cur--
 			case c == 59:
 				queries = append(queries, strings.TrimSpace(string(t.line[begin:cur+1])))
 				begin = cur + 1
